@@ -43,6 +43,7 @@ type Profile struct {
 	BigMaps    bool // bind maps with 2..12 entries (C02)
 	Ticks      bool // conditions may pass through the counting filter `tick`
 	NumPrint   bool // numeric variables only where C18 names them: print, comparison, case/when, arithmetic (not as index, limit, offset or range endpoint)
+	BareJumps  bool // break / continue may stand directly in a loop body, not only under an if
 	PlainPunct bool // no [ ] < > in tags and objects (C19: those characters may be delimiters)
 	TypedNames bool // assignments use one variable name per kind (C18: role-typed programs)
 	OrdMap     bool // use the ordered-map binding ms (lookup and size) and the byte-slice binding bs (print)
@@ -468,6 +469,9 @@ func (g *genv) cycle() *N {
 
 func (g *genv) jump(depth int) *N {
 	j := &N{T: []string{"break", "continue"}[g.pick("jk", 2)]}
+	if g.p.BareJumps && g.pick("bare", 3) == 0 {
+		return j // directly in the loop body
+	}
 	return &N{T: "if", E: g.cond(1), Body: []*N{j}}
 }
 
